@@ -250,7 +250,7 @@ def svd(a, axes=(0, 1), sU=1, nU=True, compute_uv=True,
         else:
             # Presumably {charge: D} data (k_block) for leg to be attached to U with signature sU
             # TODO: control default for sectors not present in k_block
-            sector_minD= min(k_block.values())
+            sector_minD = min(k_block.values(), default=0)
             st = _svd_connecting_charges(a.config, struct, sU, nU)
             minD = tuple(min(k_block.get(t, sector_minD), d) for t, d in zip(st, minD))
 
